@@ -35,6 +35,8 @@ func c01inst(c *h.Ctx, cs *h.Case) {
 	var handed []string
 	inCtor := map[int]chan struct{}{} // token -> release channel of its running constructor
 	finished := map[int]bool{}        // message -> Process returned
+	handedMsg := map[int]bool{}       // message -> handed to an instance
+	doneTok := map[int]bool{}         // token -> its instance declared itself done
 	fix.ResetRecs()
 	fix.Prepare = func(rec *fix.Rec) {
 		mu.Lock()
@@ -46,6 +48,7 @@ func c01inst(c *h.Ctx, cs *h.Case) {
 			if m3, ok := msg.Msg.(*fix.M3); ok {
 				mu.Lock()
 				handed = append(handed, fmt.Sprintf("%d:%d", k, m3.V))
+				handedMsg[m3.V] = true
 				mu.Unlock()
 			}
 		}
@@ -111,7 +114,13 @@ func c01inst(c *h.Ctx, cs *h.Case) {
 		if len(hs) > 0 {
 			hstr = strings.Join(hs, ",")
 		}
-		return fmt.Sprintf("pc=%s created=%s handed=%s", pc, h.Ints(created), hstr)
+		dropped := 0
+		for m, f := range finished {
+			if f && !handedMsg[m] {
+				dropped++
+			}
+		}
+		return fmt.Sprintf("pc=%s created=%s handed=%s dropped=%d", pc, h.Ints(created), hstr, dropped)
 	}
 	msgTok := map[int]int{}
 	var blocked []int
@@ -229,6 +238,29 @@ func c01inst(c *h.Ctx, cs *h.Case) {
 				return
 			}
 			cs.Impl = append(cs.Impl, obs("fin"))
+		case len(tk) == 3 && tk[1] == "idone":
+			k, _ := strconv.Atoi(tk[2])
+			mu.Lock()
+			_, running := inCtor[k]
+			built := false
+			for _, c := range created {
+				built = built || c == k
+			}
+			ok := built && !running && !doneTok[k]
+			mu.Unlock()
+			var rec *fix.Rec
+			if ok {
+				rec = fix.RecOf(tokenFor(k))
+			}
+			if rec == nil {
+				cs.Impl = append(cs.Impl, "disabled")
+				continue
+			}
+			rec.Tni.Done()
+			mu.Lock()
+			doneTok[k] = true
+			mu.Unlock()
+			cs.Impl = append(cs.Impl, obs("?"))
 		default:
 			cs.Impl = append(cs.Impl, "bad-op")
 		}
@@ -255,6 +287,11 @@ func c01inst(c *h.Ctx, cs *h.Case) {
 			cs.Fail("duplicated", fmt.Sprintf("message %d handed over twice", m))
 		}
 	}
+	for m, f := range finished {
+		if f && !handedMsg[m] && !doneTok[msgTok[m]] {
+			cs.Fail("lost", fmt.Sprintf("message %d for the live instance %d was dropped", m, msgTok[m]))
+		}
+	}
 	cs.Outcome = fmt.Sprintf("inst tokens=%d handed=%d", len(created), len(handed))
 	mu.Unlock()
 }
@@ -264,13 +301,16 @@ func c01instGen(c *h.Ctx, yield func(*h.Case)) {
 	// corpus: two peers race for the same new instance while its constructor runs
 	yield(&h.Case{Class: "inst-corpus", Ops: []string{"c01 iarrive 7 1", "c01 iarrive 7 2", "c01 ictor 7", "c01 iarrive 7 3"}})
 	yield(&h.Case{Class: "inst-corpus", Ops: []string{"c01 iarrive 9 1", "c01 iarrive 7 2", "c01 ictor 9", "c01 ictor 7", "c01 iarrive 9 3", "c01 iarrive 7 4"}})
+	// a message for a live instance waits for the lock while the instance finishes: dropped, no second instance
+	yield(&h.Case{Class: "inst-corpus", Ops: []string{"c01 iarrive 9 1", "c01 ictor 9", "c01 iarrive 7 2", "c01 iarrive 9 3", "c01 idone 9", "c01 ictor 7", "c01 iarrive 9 4", "c01 iarrive 7 5"}})
 	for n := 0; n < c.Pick(40, 600); n++ {
 		cs := &h.Case{Class: "inst"}
 		m := 0
-		ctor := -1        // token whose constructor runs
-		waiting := false  // one arrival waits for the lock
+		ctor := -1       // token whose constructor runs
+		waiting := false // one arrival waits for the lock
 		waitTok := -1
 		have := map[int]bool{}
+		fin := map[int]bool{}
 		for j := 0; j < 4+r.Intn(14); j++ {
 			if ctor >= 0 && (waiting || r.Intn(2) == 0) {
 				cs.Ops = append(cs.Ops, fmt.Sprintf("c01 ictor %d", ctor))
@@ -283,6 +323,22 @@ func c01instGen(c *h.Ctx, yield func(*h.Case)) {
 					}
 				}
 				continue
+			}
+			if r.Intn(5) == 0 {
+				// some registered instance (not the one under construction) finishes
+				var cand []int
+				for k := 1; k <= 4; k++ {
+					if have[k] && k != ctor && !fin[k] {
+						cand = append(cand, k)
+					}
+				}
+				if len(cand) > 0 {
+					k := cand[r.Intn(len(cand))]
+					fin[k] = true
+					cs.Ops = append(cs.Ops, fmt.Sprintf("c01 idone %d", k))
+					c.Count("op=idone")
+					continue
+				}
 			}
 			m++
 			k := 1 + r.Intn(4)
